@@ -103,6 +103,10 @@ def pattern(name, n, s, rng):
         for i in range(n):
             m = (m << 1) | (1 - i % 2)
         return m
+    if name == "onehalf":
+        return top | (1 << (n - 1 - s)) if n > s else top | 1
+    if name == "lowrand":
+        return top | rng.getrandbits(n - s) if n > s else top | rng.getrandbits(n - 1)
     if name == "half":
         if n > s:
             hi = (1 << (n - s - 1)) | rng.getrandbits(n - s - 1) if n - s > 1 else 1
@@ -111,7 +115,7 @@ def pattern(name, n, s, rng):
     return top | rng.getrandbits(n - 1)
 
 
-DELTA = {"pow2": 0, "pow2p": 1, "pow2m": -1, "ones": 2, "half": -2}
+DELTA = {"pow2": 0, "pow2p": 1, "pow2m": -1, "ones": 2, "half": -2, "onehalf": 3, "lowrand": -3}
 
 
 def special_value(f, mag, pat, rng):
@@ -540,7 +544,7 @@ def describe(line, entry, vname):
     return "%s %s(%s) -> (%s, %s)" % (line["fmt"], vname, ins, fl(f, un(a)), fl(f, un(b)))
 
 
-def judge(chk, variants, lines, who, stats, batch):
+def judge(chk, variants, lines, who, stats, batch_of):
     if not lines:
         return
     res = tlc.validate_events(TRACE, CFG, lines, name="eft")
@@ -573,7 +577,7 @@ def judge(chk, variants, lines, who, stats, batch):
                 key = "%s:%s" % (base, clause) if clause == "raised" else "%s:%s:%s" % (base, ln["fmt"], clause)
                 chk.fail(key, describe(ln, ent, v.name) + ": clause " + clause,
                          dict(kind=ln["kind"], fmt=ln["fmt"], inputs=[bits.unnat(ln[k]) for k in ("x", "y", "z") if k in ln],
-                              variant=v.name, clause=clause, src=batch.src, line=ln))
+                              variant=v.name, clause=clause, src=batch_of[ln["id"]].src, line=ln))
                 stats["failing_calls"] += 1
 
 
@@ -707,13 +711,33 @@ def run(tier, seed):
     nontrivial = set()
     u1_joined = []
 
-    def submit(kind, f, operands, src):
-        if not operands[0]:
+    pending = []          # (lines, who, batch) of the batches waiting for TLC
+    npending = [0]
+    flush_at = 120000
+
+    def flush():
+        if not pending:
             return
         if not u1_joined:
             # U1 first: if the design itself is wrong nothing below means anything (and the CPUs are shared)
             join_u1(chk, *u1.result(), tier)
             u1_joined.append(1)
+        lines, who, batch_of = [], [], {}
+        for ls, ws, b in pending:
+            for ln in ls:
+                batch_of[ln["id"]] = b
+            lines += ls
+            who += ws
+        # one trace for all kinds and formats (fewer JVM starts); shuffled so that the chunks cost about the same
+        order = list(range(len(lines)))
+        random.Random(seed * 1000003 + lines[0]["id"]).shuffle(order)
+        judge(chk, variants, [lines[i] for i in order], [who[i] for i in order], stats, batch_of)
+        del pending[:]
+        npending[0] = 0
+
+    def submit(kind, f, operands, src):
+        if not operands[0]:
+            return
         b = Batch(kind, f, operands, src)
         lines, who = b.run(variants, next_id[0])
         next_id[0] += len(lines)
@@ -722,7 +746,10 @@ def run(tier, seed):
             chk.sample(dict(src=src, line=lines[k]), limit=8)
         for i in range(b.n):
             nontrivial.add((kind, f.name) + tuple(o[i] for o in operands))
-        judge(chk, variants, lines, who, stats, b)
+        pending.append((lines, who, b))
+        npending[0] += len(lines)
+        if npending[0] >= flush_at:
+            flush()
 
     reps = 1          # draws per shape (thorough enumerates ~10 times more shapes instead)
     for name in FMTS:
@@ -802,6 +829,7 @@ def run(tier, seed):
             submit("split", f, [xs], "random")
             sq = xs[:1000 if quick else 30000]
             submit("prod", f, [sq, sq], "random-equal")
+    flush()
     if not u1_joined:
         join_u1(chk, *u1.result(), tier)
     # ---- every variant must have been exercised in every format
